@@ -102,7 +102,7 @@ def join(a: State | None, b: State | None) -> State | None:
 class Out:
     """Outcome of executing a statement list."""
 
-    __slots__ = ("normal", "ret", "retval", "raises", "brk", "cont")
+    __slots__ = ("normal", "ret", "retval", "raises", "brk", "cont", "parts", "forks")
 
     def __init__(self, normal=None):
         self.normal = normal
@@ -111,20 +111,30 @@ class Out:
         self.raises = {}
         self.brk = None
         self.cont = None
+        self.parts = {}     # "none" / "some" -> (state, values): returns partitioned by None-ness
+        self.forks = None   # list of states when the statement forks (see Interp.st_Assign)
 
     def add_raise(self, label, st):
         self.raises[label] = join(self.raises.get(label), st)
 
     def add_return(self, st, val):
+        if st is None:
+            return
         self.ret = join(self.ret, st)
         self.retval = self.retval | val
+        part = "none" if val and all(t == ("const", None) for t in val) else "some"
+        old = self.parts.get(part)
+        self.parts[part] = (join(old[0], st), old[1] | val) if old else (st, val)
+
+    def ret_parts(self):
+        return [self.parts[k] for k in sorted(self.parts)]
 
     def absorb(self, other: "Out"):
         """merge the non-normal outcomes of `other`"""
         for l, s in other.raises.items():
             self.add_raise(l, s)
-        if other.ret is not None:
-            self.add_return(other.ret, other.retval)
+        for pst, pval in other.ret_parts():
+            self.add_return(pst, pval)
         self.brk = join(self.brk, other.brk)
         self.cont = join(self.cont, other.cont)
 
